@@ -176,7 +176,7 @@ func c20Gen(tp *Tapes) *c20Spec {
 		sp.Shared = true
 		sp.Loaders[1] = sp.Loaders[0]
 	}
-	nPhases := 1 + g.Draw(3)
+	nPhases := 1 + g.DrawD(3, 4)
 	anyFault := false
 	// fault plan first (fault tape), so that heal events can be placed
 	f := tp.Fault
@@ -215,9 +215,9 @@ func c20Gen(tp *Tapes) *c20Spec {
 			}
 			ph.Debug = append(ph.Debug, d)
 		}
-		k := 1 + g.Draw(4)
+		k := 1 + g.DrawD(4, 6)
 		for t := 0; t < k; t++ {
-			nops := 1 + g.Draw(5)
+			nops := 1 + g.DrawD(5, 8)
 			var ops []c20Op
 			for o := 0; o < nops; o++ {
 				op := c20Op{Set: g.Draw(nSets), Sp: g.Draw(4)}
@@ -238,7 +238,7 @@ func c20Gen(tp *Tapes) *c20Spec {
 			}
 			ph.Tasks = append(ph.Tasks, ops)
 		}
-		nEnv := g.Draw(4)
+		nEnv := g.DrawD(4, 7)
 		if nEnv == 3 {
 			nEnv = 1
 		}
@@ -302,7 +302,7 @@ type c20State struct {
 	cache [c20MaxNames]int16    // 0 = not cached, else id+1
 	disk  [2][c20MaxNames]int16 // current version of the top-level file on each loader's disk
 	stale [c20MaxNames]bool     // entry survived a Debug-on period: old entry or fresh compile both accepted
-	used  uint64                // ids handed out so far
+	used  [4]uint64             // ids handed out so far (bit set)
 	debug bool
 }
 
@@ -432,7 +432,7 @@ func c20Model(sp *c20Spec) porcupine.Model {
 				return false
 			}
 			freshLegal := func() bool {
-				return !out.Err && out.ID >= 0 && st.used&(1<<uint(out.ID)) == 0 &&
+				return !out.Err && out.ID >= 0 && st.used[out.ID>>6]&(1<<uint(out.ID&63)) == 0 &&
 					out.Fetches == 1 && out.Attempts <= sp.NLoad && served() && !corrupt(out.Disk, n, out.Ver)
 			}
 			if st.debug {
@@ -442,7 +442,7 @@ func c20Model(sp *c20Spec) porcupine.Model {
 				if !freshLegal() {
 					return false, st
 				}
-				st.used |= 1 << uint(out.ID)
+				st.used[out.ID>>6] |= 1 << uint(out.ID&63)
 				return true, st
 			}
 			if st.cache[n] != 0 {
@@ -466,7 +466,7 @@ func c20Model(sp *c20Spec) porcupine.Model {
 			if !freshLegal() {
 				return false, st
 			}
-			st.used |= 1 << uint(out.ID)
+			st.used[out.ID>>6] |= 1 << uint(out.ID&63)
 			st.cache[n] = int16(out.ID + 1)
 			st.stale[n] = false
 			return true, st
@@ -787,7 +787,7 @@ func (c20Checker) Run(tp *Tapes, opt RunOpt) *Outcome {
 		c20Probes(out, sp, hist, w)
 
 		// ---- oracle 1: linearizability per set --------------------------------------
-		if len(ids) > 60 {
+		if len(ids) > 250 {
 			out.HarnessErr = "too many template ids for the model bitmask"
 		}
 		model := c20Model(sp)
